@@ -33,6 +33,8 @@ impl log::Log for SinkLogger {
 static LOGGER: SinkLogger = SinkLogger;
 /// checks whose subject can reach a log statement of the library
 const LOG_PASS: [&str; 14] = ["C02", "C03", "C04", "C05", "C06", "C07", "C08", "C09", "C11", "C15", "C16", "C17", "C18", "C19"];
+/// checks whose ceremonies are run once more with a user who takes an hour to answer every prompt
+const SLOW_PASS: [&str; 8] = ["C02", "C03", "C04", "C07", "C08", "C09", "C11", "C17"];
 /// checks whose subject can be used by several OS threads at once
 const THREAD_PASS: [&str; 4] = ["C01", "C02", "C03", "C10"];
 /// build variant of this binary: "" = default features, optimised, debug assertions and overflow
@@ -65,6 +67,7 @@ fn main() {
     crate::core::par::install_panic_hook();
     let _ = log::set_logger(&LOGGER);
     log::set_max_level(if std::env::var("VERIF_LOG").as_deref() == Ok("trace") { log::LevelFilter::Trace } else { log::LevelFilter::Off });
+    crate::drivers::slow_user_from_env();
     let args: Vec<String> = std::env::args().skip(1).collect();
     if args.first().map(|s| s.as_str()) == Some("--child") {
         // --child <prop> <mode> <tier> <lo..hi> <skip,csv> <every> <stack_mb>
@@ -190,6 +193,36 @@ fn main() {
             Err(p) => machinery(&format!("harness panic in the log pass: {p}")),
         }
     }
+    if SLOW_PASS.contains(&id.as_str()) && variant().is_empty() {
+        // the slow-user pass: the same exploration with a user who takes an hour (of the virtual
+        // clock, core/clock.rs) to answer every prompt, the user step suspending at least once.
+        // How long the user takes is no input of any ceremony: findings not seen before are new.
+        if let Err(e) = crate::core::clock::self_test() {
+            machinery(&e);
+        }
+        crate::drivers::set_slow_user(3601);
+        let again = crate::core::par::catch(|| (prop.run)(&ctx));
+        crate::drivers::set_slow_user(0);
+        match again {
+            Ok(Ok(r2)) => {
+                let mut fresh = 0u64;
+                for (k, (mut f, n)) in r2.findings {
+                    if run.findings.contains_key(&k) {
+                        continue;
+                    }
+                    let key = format!("slow-user/{k}");
+                    f.key = key.clone();
+                    f.detail = format!("with a user who takes 3601 s to answer each prompt: {}", f.detail);
+                    f.case = serde_json::json!({"slow_user": 3601, "case": f.case});
+                    run.findings.insert(key, (f, n));
+                    fresh += 1;
+                }
+                run.coverage.insert("slow_user_pass".into(), serde_json::json!({"seconds_per_prompt": 3601, "evaluations": r2.coverage.get("evaluations"), "findings_not_seen_with_a_prompt_user": fresh}));
+            }
+            Ok(Err(e)) => machinery(&format!("slow-user pass: {e}")),
+            Err(p) => machinery(&format!("harness panic in the slow-user pass: {p}")),
+        }
+    }
     if variant().is_empty() {
         // the env pass: the process environment is an input too.  For every environment-variable
         // name the library sources can read (core/dict.rs::env_names; none on the pinned tree)
@@ -299,7 +332,7 @@ fn main() {
         cov.get("distinct_nontrivial").map(|v| v.to_string()).unwrap_or_default(),
         cov.get("distinct_outcomes").map(|v| v.to_string()).unwrap_or_default(),
         known_seen.len(),
-        ctx.start.elapsed().as_secs_f64()
+        crate::core::clock::real_elapsed(&ctx.start).as_secs_f64()
     );
     std::process::exit(if violations > 0 { 1 } else { 0 });
 }
@@ -308,6 +341,20 @@ fn main() {
 /// Replay a case; cases of the log pass are replayed with the logger at Trace, and keys get the
 /// prefixes the run gave them.
 fn replay_case(prop: &props::Prop, ctx: &Ctx, case: &serde_json::Value) -> Result<Vec<Finding>, String> {
+    if let Some(secs) = case.get("slow_user").and_then(|e| e.as_u64()) {
+        crate::drivers::set_slow_user(secs);
+        let r = replay_case(prop, ctx, &case["case"]);
+        crate::drivers::set_slow_user(0);
+        return r.map(|fs| {
+            fs.into_iter()
+                .map(|mut f| {
+                    f.key = format!("slow-user/{}", f.key);
+                    f.case = serde_json::json!({"slow_user": secs, "case": f.case});
+                    f
+                })
+                .collect()
+        });
+    }
     if let Some(ev) = case.get("env").and_then(|e| e.as_array()) {
         // a case of the env pass: the same replay with the variable set, keys prefixed as the run did
         let (name, value) = (ev[0].as_str().unwrap_or("").to_string(), ev[1].as_str().unwrap_or("").to_string());
